@@ -160,7 +160,12 @@ def one_builder(ctx):
     m = ctx.m
     ci = m.cls(UDP)
     builders = set()
-    for fi in ci.methods.values():
+    def with_nested(fi):
+        yield fi
+        for lst in fi.nested.values():
+            for nf in lst:
+                yield from with_nested(nf)
+    for fi in [g for meth in ci.methods.values() for g in with_nested(meth)]:      # (local functions of the methods included)
         for c in calls_in(fi.node):
             if call_attr(c) == 'sendto' and c.args and dotted(c.func.value) != 'self':
                 ctx.analysed(fi)
